@@ -23,6 +23,7 @@ def handleParse (toks : List String) : Option String :=
     | "p_instant" => some (okOr ((Gram.instant cs).map toString))
     | "p_duration" => some (okOr ((Gram.durationChecked cs).map Dur.render))
     | "p_offset" => some (okOr ((Gram.utcOffset cs).map toString))
+    | "p_tz" => some (okOr ((Gram.timeZone cs).map Gram.TzOut.render))
     | "p_monthcode" => some (okOr ((Gram.monthCode cs).map (fun (n, l) =>
         "M" ++ (if n < 10 then "0" else "") ++ toString n ++ (if l then "L" else ""))))
     | _ => none
